@@ -263,11 +263,6 @@ func (dsm *DsManager) DeleteDataset(name string) error {
 	dsm.store.datasets.Delete(name)
 	dsm.store.datasetsByInternalID.Delete(existingDataset.InternalID)
 	key := existingDataset.getStorageKey()
-	err := dsm.store.deleteValue(key)
-	if err != nil {
-		return err
-	}
-	verifhook.Point("delete.afterRecordDelete")
 
 	// record we deleted it.
 	// swap map out with new modified copy of map to avoid concurrent read/write issues which can occur if
@@ -277,11 +272,15 @@ func (dsm *DsManager) DeleteDataset(name string) error {
 		newDeletedDatasets[k] = v
 	}
 	newDeletedDatasets[existingDataset.InternalID] = true
-	dsm.store.deletedDatasets = newDeletedDatasets
-	err = dsm.store.StoreObject(StoreMetaIndex, "deleteddatasets", dsm.store.deletedDatasets)
+
+	// delete the dataset and persist the deleted datasets in one transaction. If only the dataset is gone after
+	// a crash, its entities are visible to queries across datasets again and are never garbage collected.
+	err := dsm.store.deleteValueAndStoreObject(key, StoreMetaIndex, "deleteddatasets", newDeletedDatasets)
 	if err != nil {
 		return err
 	}
+	dsm.store.deletedDatasets = newDeletedDatasets
+	verifhook.Point("delete.afterRecordDelete")
 	verifhook.Point("delete.afterDeletedSet")
 
 	dsm.eb.UnregisterTopic(name) // unregister event-handler on this topic. Note that subscriptions are left.
